@@ -15,6 +15,7 @@
 #include <sys/mman.h>
 #include <sys/time.h>
 #include <stdint.h>
+#include <errno.h>
 
 void vp_write(const char* buf, size_t n)
 {
@@ -22,6 +23,7 @@ void vp_write(const char* buf, size_t n)
     size_t off = 0;
     while (off < n) {
         ssize_t k = write(1, buf + off, n - off);
+        if (k < 0 && errno == EINTR) continue;      /* the progress watchdog's timer signal */
         if (k <= 0) _exit(3);
         off += (size_t)k;
     }
